@@ -219,9 +219,12 @@ func MarshalToFunc[T any](fn func(*jsontext.Encoder, T) error) *Marshalers {
 			xe := export.Encoder(enc)
 			prevDepth, prevLength := xe.Tokens.DepthLength()
 			xe.Flags.Set(jsonflags.WithinArshalCall | 1)
+			prevFloor := xe.Tokens.Floor
+			xe.Tokens.Floor = len(xe.Tokens.Stack)
 			v, _ := reflect.TypeAssert[T](va.castTo(t))
 			err := fn(enc, v)
 			xe.Flags.Set(jsonflags.WithinArshalCall | 0)
+			xe.Tokens.Floor = prevFloor
 			currDepth, currLength := xe.Tokens.DepthLength()
 			if err == nil && (prevDepth != currDepth || prevLength+1 != currLength) {
 				err = errNonSingularValue
@@ -306,9 +309,12 @@ func UnmarshalFromFunc[T any](fn func(*jsontext.Decoder, T) error) *Unmarshalers
 				return io.EOF // check EOF early to avoid fn reporting an EOF
 			}
 			xd.Flags.Set(jsonflags.WithinArshalCall | 1)
+			prevFloor := xd.Tokens.Floor
+			xd.Tokens.Floor = len(xd.Tokens.Stack)
 			v, _ := reflect.TypeAssert[T](va.castTo(t))
 			err := fn(dec, v)
 			xd.Flags.Set(jsonflags.WithinArshalCall | 0)
+			xd.Tokens.Floor = prevFloor
 			currDepth, currLength := xd.Tokens.DepthLength()
 			if err == nil && (prevDepth != currDepth || prevLength+1 != currLength) {
 				err = errNonSingularValue
